@@ -5,11 +5,11 @@ from ..core import vals
 from ..ref import populations as rp
 
 
-def top_values(spec, n_ids, seed=0, tag='t'):
+def top_values(spec, n_ids, seed=0, tag='t', positive=False):
     k = spec['kind']
     if k == 'G':
         d = spec['n_dim']
-        return vals.reals(tag + 'Gm', d, 0.6, 3.0, seed) + \
+        return vals.reals(tag + 'Gm', d, 1.2 if positive else 0.6, 3.0, seed) + \
             vals.reals(tag + 'Gs', d, 0.3, 1.5, seed)
     if k == 'LN':
         d = spec['n_dim']
@@ -24,16 +24,16 @@ def top_values(spec, n_ids, seed=0, tag='t'):
     if k == 'H':
         return vals.reals(tag + 'H', spec['n_dim'] * n_ids, 0.5, 3.0, seed)
     if k == 'Cov':
-        inner = top_values(spec['inner'], n_ids, seed, tag + 'c')
+        inner = top_values(spec['inner'], n_ids, seed, tag + 'c', positive)
         nb = len(rp.selection(spec)) * spec['n_cov']
         return inner + vals.reals(tag + 'beta', nb, -0.08, 0.12, seed)
     if k == 'Comp':
         out = []
         for i, p in enumerate(spec['parts']):
-            out += top_values(p, n_ids, seed, '%s.%d' % (tag, i))
+            out += top_values(p, n_ids, seed, '%s.%d' % (tag, i), positive)
         return out
     if k == 'Red':
-        full = top_values(spec['inner'], n_ids, seed, tag)
+        full = top_values(spec['inner'], n_ids, seed, tag, positive)
         return [v for i, v in enumerate(full) if str(i) not in spec['fixed']]
     raise ValueError(k)
 
@@ -46,22 +46,23 @@ def covariates(spec, n_ids, seed=0, tag='cov'):
     return np.array(v).reshape(n_ids, c)
 
 
-def raw_obs(spec, n_ids, seed=0, tag='o'):
+def raw_obs(spec, n_ids, seed=0, tag='o', positive=False):
     """Generic 'observations' (psi or eta) per dimension kind; P/H columns are
     placeholders to be overwritten by `obs_values`."""
     k = spec['kind']
     if k == 'Comp':
-        cols = [raw_obs(p, n_ids, seed, '%s.%d' % (tag, i))
+        cols = [raw_obs(p, n_ids, seed, '%s.%d' % (tag, i), positive)
                 for i, p in enumerate(spec['parts'])]
         return np.concatenate(cols, axis=1)
     if k in ('Cov', 'Red'):
-        return raw_obs(spec['inner'], n_ids, seed, tag + 'i')
+        return raw_obs(spec['inner'], n_ids, seed, tag + 'i', positive)
     d = spec['n_dim']
     n = n_ids * d
     if k in ('G', 'LN') and not spec['centered']:
-        v = vals.reals(tag + 'eta', n, -1.5, 1.5, seed)
+        v = vals.reals(tag + 'eta', n, -0.3 if positive else -1.5, 1.5, seed)
     elif k == 'G':
-        v = vals.reals(tag + 'g', n, -1.0, 4.0, seed)
+        v = vals.reals(tag + 'g', n, 0.4 if positive else -1.0,
+                       3.0 if positive else 4.0, seed)
     elif k == 'LN':
         v = vals.reals(tag + 'l', n, 0.3, 4.0, seed)
     elif k == 'TG':
@@ -71,10 +72,10 @@ def raw_obs(spec, n_ids, seed=0, tag='o'):
     return np.array(v, dtype=float).reshape(n_ids, d)
 
 
-def obs_values(spec, top, n_ids, cov=None, seed=0, tag='o'):
+def obs_values(spec, top, n_ids, cov=None, seed=0, tag='o', positive=False):
     """Observations in the support: pooled / heterogeneous columns equal the values
     the population parameters dictate."""
-    obs = raw_obs(spec, n_ids, seed, tag)
+    obs = raw_obs(spec, n_ids, seed, tag, positive)
     sp = rp.special(spec)
     if any(x is not None for x in sp):
         psi = np.real(rp.psi_of(spec, np.asarray(top, dtype=float), obs, cov))
